@@ -98,6 +98,10 @@ type Driver struct {
 	LastOp string
 	// Faults, when set, is consulted for body-stream faults.
 	Faults *seams.Faults
+	// FocusBucket, when set, is the bucket every generated operation targets
+	// (no bucket draw is made): scenarios that aim a sequence of operations at
+	// one key set it together with a one-element Cfg.Keys.
+	FocusBucket string
 }
 
 // Fork returns a driver on another storage (a restarted or forked world) that
@@ -387,6 +391,9 @@ func (d *Driver) pickKey(g *sim.Tape) string    { return d.Cfg.Keys[g.Int(len(d.
 
 // pickExistingBucket prefers a bucket that exists in the model.
 func (d *Driver) pickExistingBucket(g *sim.Tape) string {
+	if d.FocusBucket != "" {
+		return d.FocusBucket
+	}
 	names := d.M.BucketNames()
 	if len(names) == 0 || g.Chance(1, 25) {
 		return d.pickBucket(g)
